@@ -105,7 +105,7 @@ func victimMain() {
 		if len(f) == 0 {
 			continue
 		}
-		cctx, cancel := context.WithTimeout(ctx, 250*time.Millisecond)
+		cctx, cancel := context.WithTimeout(ctx, 120*time.Millisecond)
 		var err error
 		start := time.Now()
 		switch f[0] {
